@@ -58,6 +58,21 @@ def c13(tier, seed, replay):
             var = r.randrange(len(P["vidx"]))
             for rw in r.sample(rewrites_for(P, r, True), 2):
                 inputs.append(dict(rw, P=P, mode=mode, var=var, src="random", triple=triple))
+        # ---- systematic: the objective is a VIEW (shared domain + offset); the same model with a separate variable
+        #      linked by an equality must have the same optimum (and every other rewrite too)
+        for off in (-3, -2, -1, 1, 2, 3):
+            for lo, hi in ((0, 1), (0, 2), (0, 3), (1, 2), (1, 3), (2, 3), (1, 1)):
+                # x0 in [0,3] restricted to lo..hi by two constraints, x1 free in [0,1]; objective = the view x0 + off
+                P = {"doms": [[0, 3], [0, 1]], "vidx": [0, 1, 0], "voff": [0, 0, off],
+                     "props": [{"vars": [0, 1], "alg": "affine_leq", "params": [1, 0, hi]},
+                               {"vars": [0, 1], "alg": "affine_geq", "params": [1, 0, lo]}]}
+                for mode in ("min", "max"):
+                    for dh in (0, 1):       # the first solution is the best one or the worst one
+                        rws = rewrites_for(P, r, True)
+                        if tier == "quick":
+                            rws = [rws[0]] + r.sample(rws[1:], 1)      # always the un-sharing rewrite
+                        for rw in rws:
+                            inputs.append(dict(rw, P=P, mode=mode, var=2, src="view-objective", triple=False, cfgP={"dh": dh}))
         for m in exported:
             P = m["P"]
             obj = OBJECTIVE.get(m["name"])
@@ -104,12 +119,12 @@ def c13(tier, seed, replay):
         for x in inputs:
             # the shipped models keep the default strategy (another one may need an astronomic search)
             cfgQ = ({"ca": r.choice([0, 0, 1]), "vh": r.choice([0, 1, 2]), "dh": r.choice([0, 1, 2, 3])}
-                    if x["src"] == "random" else {"ca": 0, "vh": 0, "dh": 0})
+                    if x["src"] in ("random", "view-objective") else {"ca": 0, "vh": 0, "dh": 0})
             if x.get("triple") and r.random() < 0.7:
                 cfgQ["dh"] = 3
             varQ = x["perm"][x["var"]] if x["kind"] == "permv" else x["var"]
             items.append({"rid": x["rid"], "runs": [
-                {"P": x["P"], "cfg": {}, "mode": x["mode"], "var": x["var"]},
+                {"P": x["P"], "cfg": x.get("cfgP", {}), "mode": x["mode"], "var": x["var"]},
                 {"P": Q[x["rid"]], "cfg": cfgQ, "mode": x["mode"], "var": varQ,
                  "build": "incremental" if x["kind"] == "incr" else "constructor"}]})
         items.sort(key=lambda it: -len(json.dumps(it["runs"][0]["P"])))
